@@ -275,26 +275,62 @@ STEPS = [
     {"keyword": "Then ", "type": "Outcome", "text": "escapes 2",
      "arg": ("doc", '"""', "", ['say \\"\\"\\" here', "and \\`\\`\\` there"])},
     {"keyword": "Given ", "type": "Context", "text": "form\x0cfeed and line\u2028separator and next\x85line"},
+    {"keyword": "When ", "type": "Action", "text": "both <a><b>, nested <<a>>, empty <> and <b> again",
+     "arg": ("table", [["<b>", "<a>"], ["<>", "x<a>y"]])},
+    {"keyword": "And ", "type": "Conjunction", "text": "<b> then <a>", "arg": ("doc", '"""', " <a>", ["<b> in content", "<a>"])},
 ]
 DESCS = [[], [("text", "plain words")], [("text", "pasted\u2028text with\x0bodd\x1cseparators")], [("blank",), ("text", "after blank"), ("blank",), ("text", "more"), ("blank",)],
          [("comment", "lead"), ("blank",), ("text", "t")], [("text", "t"), ("comment", "inside"), ("text", "u")]]
-TAGSETS = [[], [["@a"]], [["@a", "@b"], ["@c"]], [[("@a", "  "), ("@wide", "\t \t"), ("@b", ""), "@adjacent", ("@\U0001F600x", "   "), "@z"]]]
+TAGSETS = [[], [["@a"]], [["@a", "@b"], ["@c"]], [["@a", "@a"], ["@b", "@a"]], [[("@a", "  "), ("@wide", "\t \t"), ("@b", ""), "@adjacent", ("@\U0001F600x", "   "), "@z"]]]
 EXAMPLES = [
     {"rows": [["a", "b"], ["1", "2"]]},
     {"tags": [["@e"]], "name": " named ", "rows": [["a"], ["x"], ["y|z"]]},
     {"rows": []},
     {"rows": [["h"]], "description": [("text", "d")]},
+    {"rows": [["b", "a"], ["B", "A"], ["<a>", "q"]]},
+    {"rows": [["a", "", "b"], ["1", "2", "3"]]},
+    {"tags": [["@e", "@e"]], "rows": [["a", "a"], ["first", "second"], ["x", "y"]]},
+    {"rows": [["a"], ["v"]], "description": [("text", "first"), ("blank",), ("text", "after a blank line"), ("comment", "c"), ("text", "end")]},
 ]
 
 
+def fixed_documents():
+    """Always-included documents that combine the features random sampling may miss in a small sample: several examples
+    tables with different / permuted / blank / repeated headers and several rows, placeholders everywhere, values that
+    contain placeholders, repeated tags on one element, step-less scenarios under backgrounds, rules after rules."""
+    def sc(name, steps, examples=(), tags=(), kw=True):
+        return ("scenario", {"name": name, "tags": list(tags), "description": [], "steps": [dict(STEPS[i]) for i in steps],
+                             "examples": [dict(EXAMPLES[i]) for i in examples], "outline_kw": bool(examples) and kw})
+
+    def bg(steps):
+        return ("background", {"name": "", "description": [], "steps": [dict(STEPS[i]) for i in steps]})
+    yield {"feature": {"name": " placeholders", "tags": [["@a", "@a"], ["@b", "@a"]], "description": [], "children": [
+        bg([0, 1]),
+        sc(" <a> then <b>", [11, 12, 1, 2], examples=[0, 4, 7, 5, 6], tags=[["@a", "@a"]]),
+        sc(" no steps", [], examples=[0]),
+        sc(" plain without steps", []),
+        ("rule", {"name": " r1", "tags": [["@a", "@a"], ["@b", "@a"]], "description": [], "children": [
+            bg([3]), sc(" <b><a>", [1, 11], examples=[6, 7, 4, 1]), sc(" stepless in rule", [])]}),
+        ("rule", {"name": " r2", "tags": [], "description": [], "children": [
+            bg([2]), sc(" after r1", [12, 0], examples=[5, 0], kw=False)]}),
+    ]}, "language_header": False}
+    yield {"feature": {"name": " f", "tags": [], "description": [], "children": [
+        sc(" only outline", [1, 2, 12], examples=[4, 4]),
+        sc(" <a>", [4, 5, 6, 7, 8, 9], examples=[1, 2, 3, 0]),
+        ("rule", {"name": " r", "tags": [["@c"]], "description": [], "children": [bg([0, 1])]}),
+    ]}, "language_header": True}
+
+
 def sample_documents(rnd: random.Random, n):
+    for d in fixed_documents():
+        yield d
     for _ in range(n):
         def steps(k):
             return [dict(rnd.choice(STEPS)) for _ in range(k)]
 
         def scenario():
-            ex = [dict(rnd.choice(EXAMPLES)) for _ in range(rnd.choice([0, 0, 1, 2]))]
-            return ("scenario", {"name": rnd.choice([" s", "", " a  b "]), "tags": rnd.choice(TAGSETS),
+            ex = [dict(rnd.choice(EXAMPLES)) for _ in range(rnd.choice([0, 0, 1, 2, 3]))]
+            return ("scenario", {"name": rnd.choice([" s", "", " a  b ", " <a> then <b>"]), "tags": rnd.choice(TAGSETS),
                                  "description": rnd.choice(DESCS), "steps": steps(rnd.choice([0, 1, 2, 3])),
                                  "examples": ex, "outline_kw": bool(ex) and rnd.random() < 0.7})
 
